@@ -138,7 +138,9 @@ PROPS = {
                 extras=[_c10a_replay]),
     "C17": dict(level="proof", assumptions=COMMON + ["A-KECCAK", "str.lower / int(str) / ascii encoding as uninterpreted functions",
                                                        "scope: message text and EIP-191 wrapping, digest wiring, constructor refusals, the device exchange; "
-                                                       "sign-then-verify (secp256k1) and the file save/load round trip are NOT covered (DESIGN 5.C17)"],
+                                                       "save/load: to_dict of the authorization and of the signer version write exactly hash, iteration and the signatures in order, and "
+                                                       "SignerVersion.__init__ reads them back; json.dumps / json.loads, the file and SignerAuthorization.from_jsonfile in between are NOT "
+                                                       "verified; sign-then-verify (secp256k1) is NOT covered (DESIGN 5.C17)"],
                 trusted_base=TB, explanation="string obligations are syntactic equalities of SMT string terms; the signature loop has an inductive invariant"),
     "C18": dict(level="proof", assumptions=COMMON + ["stdin / getpass answers are arbitrary strings; os.urandom(n) returns n arbitrary bytes",
                                                        "scope: onboard (up to and including the onboarding call), unlock, changepin and the device-side onboarding/PIN methods; "
